@@ -125,6 +125,21 @@ CLAIMED = {
              "values stay symbolic; conversion to HDF5 types and back, NaN/extremes and reopening are "
              "libhdf5/NumPy (exercised only by the real-stack replay of counterexamples).",
         ref="3 C10"),
+    "C13": dict(
+        text="On section and source trees with names repeated across subtrees and levels: "
+             "find_sections / find_sources from the file, a block or any node, for EVERY integer "
+             "depth limit (and no limit) and every name filter, return exactly the breadth-first "
+             "list of the nodes within the limit that pass the filter; the parent of every node "
+             "(handle obtained by navigation, by a search, or through a metadata / source link) is "
+             "the containing node, None at the top, parent_block the owning block, find_related = "
+             "siblings then children; referring_* lists of sections and sources are exactly the "
+             "inverse of symbolic link selectors over blocks, groups, arrays, tags, multi-tags and "
+             "sources of two blocks.",
+        note="Oracles come from an independent nested-tuple description of the tree. Three fixed tree "
+             "shapes (two in the quick tier); non-positive limits when starting from a file/block "
+             "are outside (the start is not a tree node); fakeh5 backend; reopening is libhdf5. "
+             "Counterexamples are replayed on a real HDF5 file.",
+        ref="3 C13"),
 }
 
 NOT_APPLICABLE = {
